@@ -2,6 +2,7 @@ package main
 
 import (
 	"fmt"
+	"go/constant"
 	"go/types"
 	"sort"
 	"strings"
@@ -207,7 +208,36 @@ var ruleKleene = &Rule{
 					out.undecided(conn.name, p.pos(fb.Pos()), fnName(fb), "operator atom or constant unresolved")
 					continue
 				}
-				n, probs := checkBinaryConnective(p, tx, rows, opAtom, constOfC(c), bd, k, conn.f)
+				n, probs := checkBinaryConnective(p, tx, rows, Assign{opAtom: constOfC(c)}, bd, k, conn.f)
+				if h, dc := delegatedArmCall(tx, rows, opAtom, constOfC(c)); h != nil && dc != nil && h != fb && p.pairKind(h.Signature) == "pred" && h.Blocks != nil {
+					// both connectives handed to one function with the deciding
+					// outcome as a parameter (`return exec.connective(ctx, node,
+					// value, predFalse)`): its table, with the parameters bound
+					// to the constants of this arm's call
+					base := Assign{}
+					okArgs := true
+					for i, a := range dc.Call.Args {
+						if i >= len(h.Params) {
+							break
+						}
+						if bt, isB := h.Params[i].Type().Underlying().(*types.Basic); isB && bt.Info()&(types.IsInteger|types.IsBoolean) != 0 {
+							if kv, isC := constInt(a); isC {
+								base[h.Params[i].Name()] = kv
+							} else if kb, isC := a.(*ssa.Const); isC && kb.Value != nil && kb.Value.Kind() == constant.Bool {
+								base[h.Params[i].Name()] = 0
+								if constant.BoolVal(kb.Value) {
+									base[h.Params[i].Name()] = 1
+								}
+							} else {
+								okArgs = false
+							}
+						}
+					}
+					if okArgs {
+						tx2, rows2 := p.extractTable(h, nil, &TableCfg{})
+						n, probs = checkBinaryConnective(p, tx2, rows2, base, bd, k, conn.f)
+					}
+				}
 				ncells += n
 				key := "truth table of " + conn.name
 				if len(probs) == 0 && n > 0 {
@@ -261,7 +291,16 @@ func constOfC(c *types.Const) int64 { return constOf(c) }
 // delegatedArm: every path taken for operator op returns, whole, the two
 // results of one call to a module function; that function.
 func delegatedArm(tx *tableEx, rows []*PathRow, opAtom string, op int64) *ssa.Function {
+	h, _ := delegatedArmCall(tx, rows, opAtom, op)
+	return h
+}
+
+// delegatedArmCall: the same, with the one call that delegates (nil when the
+// arm delegates from several places).
+func delegatedArmCall(tx *tableEx, rows []*PathRow, opAtom string, op int64) (*ssa.Function, *ssa.Call) {
 	var h *ssa.Function
+	var call *ssa.Call
+	ncalls := 0
 	n := 0
 	for _, r := range rows {
 		if r.Loop != nil || len(r.Out) != 2 {
@@ -280,22 +319,29 @@ func delegatedArm(tx *tableEx, rows []*PathRow, opAtom string, op int64) *ssa.Fu
 		}
 		n++
 		if r.Out[0].Kind != "atom" || r.Out[1].Kind != "atom" {
-			return nil
+			return nil, nil
 		}
 		a0, a1 := tx.atoms[r.Out[0].Atom], tx.atoms[r.Out[1].Atom]
 		if a0 == nil || a1 == nil || a0.Call == nil || a0.Call != a1.Call || a0.Index != 0 || a1.Index != 1 {
-			return nil
+			return nil, nil
 		}
 		f := a0.Call.Call.StaticCallee()
 		if f == nil || !inModule(f) || (h != nil && h != f) {
-			return nil
+			return nil, nil
 		}
 		h = f
+		if call != a0.Call {
+			ncalls++
+		}
+		call = a0.Call
 	}
 	if n == 0 {
-		return nil
+		return nil, nil
 	}
-	return h
+	if ncalls != 1 {
+		call = nil
+	}
+	return h, call
 }
 
 // coherent: err set ⇒ outcome unknown (established by R-PAIR-P for the callee).
@@ -308,7 +354,7 @@ func coherent(as Assign, r, e string, U int64) bool {
 	return true
 }
 
-func checkBinaryConnective(p *Prog, tx *tableEx, rows []*PathRow, opAtom string, op int64, bd *ssa.Function, k k3, f func(a, b int64) int64) (int, []string) {
+func checkBinaryConnective(p *Prog, tx *tableEx, rows []*PathRow, base Assign, bd *ssa.Function, k k3, f func(a, b int64) int64) (int, []string) {
 	var probs []string
 	n := 0
 	dom := []int64{k.F, k.T, k.U}
@@ -318,7 +364,7 @@ func checkBinaryConnective(p *Prog, tx *tableEx, rows []*PathRow, opAtom string,
 		}
 		calls := operandCalls(r, bd)
 		names := tx.atomsOf(append(guardTerms(r), r.Out...)...)
-		for _, as := range tx.assignments(names, Assign{opAtom: op}) {
+		for _, as := range tx.assignments(names, base) {
 			ok, why := tx.satisfied(r, as)
 			if why != "" {
 				probs = append(probs, why)
@@ -673,6 +719,74 @@ var ruleFilter = &Rule{
 			out.undecided("filter arm", p.pos(fu.Pos()), fnName(fu), "operator atom unresolved")
 			return out
 		}
+		base := Assign{opAtom: constOf(fc)}
+		// the filter arm may be a function of its own (`case ast.UnaryFilter:
+		// return exec.execFilterNode(ctx, node, value, found, unwrap)`): every
+		// path of the arm is one call of the same executor method, handed the
+		// dispatcher's own parameters, whose results are returned as they are.
+		// The table is then that function's.
+		{
+			var helper *ssa.Function
+			okRedirect, nrows := true, 0
+			for _, r := range rows {
+				if r.Loop != nil || len(r.Out) != 2 {
+					continue
+				}
+				names := tx.atomsOf(append(guardTerms(r), r.Out...)...)
+				sat := false
+				for _, as := range tx.assignments(names, base) {
+					if ok, _ := tx.satisfied(r, as); ok {
+						sat = true
+						break
+					}
+				}
+				if !sat {
+					continue
+				}
+				nrows++
+				if len(r.Calls) == 0 {
+					okRedirect = false
+					continue
+				}
+				c := r.Calls[len(r.Calls)-1]
+				g := c.Call.StaticCallee()
+				if g == nil || !isMethodOfExecutor(p, g) || g.Blocks == nil || p.pairKind(g.Signature) != "status" ||
+					r.Out[0].Kind != "atom" || r.Out[0].Atom != atomKey(c, 0) || r.Out[1].Kind != "atom" || r.Out[1].Atom != atomKey(c, 1) {
+					okRedirect = false
+					continue
+				}
+				for _, oc := range r.Calls[:len(r.Calls)-1] {
+					if sig := calleeSig(oc); sig != nil && p.pairKind(sig) != "" {
+						okRedirect = false
+					}
+				}
+				for _, a := range c.Call.Args {
+					if _, isParam := stripConv(a).(*ssa.Parameter); !isParam {
+						okRedirect = false
+					}
+				}
+				if helper != nil && helper != g {
+					okRedirect = false
+				}
+				helper = g
+			}
+			if okRedirect && helper != nil && nrows > 0 {
+				// only the dispatcher calls it
+				only := true
+				if nd := p.CG.Nodes[helper]; nd != nil {
+					for _, e := range nd.In {
+						if e.Caller.Func != fu {
+							only = false
+						}
+					}
+				}
+				if only {
+					fu = helper
+					tx, rows = p.extractTable(fu, nil, &TableCfg{})
+					base = Assign{}
+				}
+			}
+		}
 		failed := constOf(p.A.StatusFailed)
 		var valueParam *ssa.Parameter
 		for _, q := range fu.Params {
@@ -690,7 +804,7 @@ var ruleFilter = &Rule{
 				continue
 			}
 			names := tx.atomsOf(append(guardTerms(r), r.Out...)...)
-			for _, as := range tx.assignments(names, Assign{opAtom: constOf(fc)}) {
+			for _, as := range tx.assignments(names, base) {
 				if ok, _ := tx.satisfied(r, as); !ok {
 					continue
 				}
@@ -809,6 +923,18 @@ var ruleFilter = &Rule{
 			for _, q := range condFn.Params {
 				if it, ok := q.Type().Underlying().(*types.Interface); ok && it.NumMethods() == 0 {
 					vp = q
+				}
+			}
+			for _, hc := range p.allCalls(condFn) {
+				if hc.Call.IsInvoke() || hc.Block() == nil {
+					continue
+				}
+				if k := p.setsFieldFromParam(hc.Call.StaticCallee(), cur); k >= 0 && k < len(hc.Call.Args) && vp != nil && stripConv(hc.Call.Args[k]) == ssa.Value(vp) {
+					for _, c := range p.execMethodCalls(condFn) {
+						if c != hc && before(hc, c) && p.passesParam(c, vp) {
+							good = true
+						}
+					}
 				}
 			}
 			for _, s := range p.execStores(condFn) {
@@ -973,7 +1099,7 @@ func init() {
 	register(ruleFilter)
 	addProp(&PropSpec{
 		ID:          "C10",
-		Rules:       []string{"R-FILTER", "R-STATE", "R-SCOPE", "R-PAIR-P", "R-PREDLOOP", "R-ONELEVEL", "R-EXECADDR", "R-COLLMONO", "R-UNWRAPTHREAD"},
+		Rules:       []string{"R-FILTER", "R-STATE", "R-SCOPE", "R-PAIR-P", "R-PREDLOOP", "R-ONELEVEL", "R-EXECADDR", "R-COLLMONO", "R-UNWRAPTHREAD", "R-RESUPPRESS"},
 		Explanation: "The filter is a small decision procedure: its complete table over (unwrap, operand is an array, condition outcome, condition error) is extracted from the filter arm and compared with 'keep exactly the items whose condition is true, hand on the very same item, drop the others without aborting, abort only on an error'; @ is bound to the tested item and restored on every exit (typestate); the outcome→item mapping of predicate check expressions is extracted likewise.",
 		Decided: []string{"R-FILTER: table of the filter arm, identity of tested and forwarded item, unwrap-before-condition, @ binding, predicate-as-item mapping",
 			"R-STATE: @ restored on every exit of the condition executor", "R-SCOPE: the continuation is not evaluated while @ is rebound", "R-PAIR-P: an error from the condition is (failed, err), never (not found, err)"},
@@ -986,12 +1112,58 @@ func init() {
 // reports what the Executor field holds there relative to function entry:
 // "entry" (untouched, or written back from a saved load), "item" (the given
 // parameter was stored last) or "other".
+// setsFieldFromParam: g (package exec) stores its parameter number k into the
+// Executor field (whole); -1 otherwise.
+func (p *Prog) setsFieldFromParam(g *ssa.Function, field *types.Var) int {
+	if g == nil || g.Blocks == nil || fnPkgPath(g) != pkgExec {
+		return -1
+	}
+	// only a function whose job is the store: it returns the restorer
+	// (`tempSetCurrent(v) func()`) or nothing at all (a plain setter); one
+	// that sets, evaluates and restores leaves the field as it found it
+	switch rs := g.Signature.Results(); rs.Len() {
+	case 0:
+		if len(p.mutatorFields(g)) == 0 {
+			return -1
+		}
+	case 1:
+		if _, isFn := rs.At(0).Type().Underlying().(*types.Signature); !isFn {
+			return -1
+		}
+	default:
+		return -1
+	}
+	for _, s := range p.execStores(g) {
+		if s.Field != field || !p.wholeField(s.Store.Addr) {
+			continue
+		}
+		if q, ok := stripConv(s.Store.Val).(*ssa.Parameter); ok && q.Parent() == g {
+			return paramIndex(q)
+		}
+	}
+	return -1
+}
+
 func (p *Prog) fieldStateAt(fn *ssa.Function, field *types.Var, item *ssa.Parameter, r *PathRow, at ssa.Instruction) string {
 	state := "entry"
 	for _, b := range r.Blocks {
 		for _, ins := range b.Instrs {
 			if ins == at {
 				return state
+			}
+			// a helper that stores one of its arguments into the field
+			// (`defer exec.tempSetCurrent(value)()`)
+			if hc, ok := ins.(*ssa.Call); ok && !hc.Call.IsInvoke() {
+				if k := p.setsFieldFromParam(hc.Call.StaticCallee(), field); k >= 0 && k < len(hc.Call.Args) {
+					if item != nil && stripConv(hc.Call.Args[k]) == ssa.Value(item) {
+						state = "item"
+					} else if ld, _ := p.traceSaved(fn, hc.Call.Args[k], hc, 0); ld != nil {
+						state = "entry"
+					} else {
+						state = "other"
+					}
+				}
+				continue
 			}
 			st, ok := ins.(*ssa.Store)
 			if !ok {
